@@ -27,3 +27,34 @@ Proof.
   rewrite <- H. repeat split. intros Hw. rewrite Hw, Nat.eqb_refl. reflexivity.
 Qed.
 Print Assumptions C09_weights_are_fixed.
+
+(* ---- PCGrad and ConFIG (added): linear under positive row scaling ---- *)
+From TJ.proofs Require Import QPProofs C18Proofs C16Proofs ScalingProofs.
+(* PCGrad, for EVERY fixed schedule of projection orders: conflict tests are invariant under
+   positive scaling of either row, the subtracted projection does not depend on the scale of the
+   row projected on, and everything scales with the row's own factor *)
+Theorem C09_pcgrad_projection_scales : forall J c i t, length c = length J -> allpos c -> 0 < t ->
+  forall perm g, pc_vec (rscale c J) i perm (vscaleR t g) = vscaleR t (pc_vec J i perm g).
+Proof. exact pc_vec_rscale. Qed.
+Print Assumptions C09_pcgrad_projection_scales.
+Theorem C09_pcgrad : forall n J perms a b c1 c2, wfmat n J -> J <> [] ->
+  (length perms <= length J)%nat -> Forall (Forall (fun j => (j < length J)%nat)) perms ->
+  length c1 = length J -> length c2 = length J ->
+  allpos c1 -> allpos c2 -> allpos (vaddR (vscaleR a c1) (vscaleR b c2)) ->
+  agg_pcgrad RN perms (rscale (vaddR (vscaleR a c1) (vscaleR b c2)) J) =
+  vaddR (vscaleR a (agg_pcgrad RN perms (rscale c1 J))) (vscaleR b (agg_pcgrad RN perms (rscale c2 J))).
+Proof. exact pcgrad_linear_under_scaling_gen. Qed.
+Print Assumptions C09_pcgrad.
+(* ConFIG: the unit rows (hence the pseudo-inverse oracle's argument, hence the direction) do not
+   depend on positive row scales, and the length is linear in them *)
+Theorem C09_config_units_scale_free : forall J c, length c = length J -> allpos c ->
+  config_units RN (rscale c J) = config_units RN J.
+Proof. exact config_units_rscale. Qed.
+Print Assumptions C09_config_units_scale_free.
+Theorem C09_config : forall B pref a b c1 c2 J w,
+  length c1 = length J -> length c2 = length J ->
+  pref_weights pref (sum_weights RN (length J)) (length J) = Ok w ->
+  exists v1 v2, agg_config RN B pref (rscale c1 J) = Ok v1 /\ agg_config RN B pref (rscale c2 J) = Ok v2 /\
+    agg_config RN B pref (rscale (vaddR (vscaleR a c1) (vscaleR b c2)) J) = Ok (vaddR (vscaleR a v1) (vscaleR b v2)).
+Proof. exact config_linear_under_scaling. Qed.
+Print Assumptions C09_config.
